@@ -92,6 +92,22 @@ MARKER_LEN_FIELD = {'Token': 'len'}
 CURSOR_COMPARE = {('preprocess.c', 'join_adjacent_string_literals'): 'tok2 is reached from tok1 by following next over string literals; every token before it is a string literal'}
 FIELD_RULE = {'Token.next': 'R13.9'}
 
+# R13.11: integer fields that hold a value written in the input (any 64-bit value, 0 and -1 included); each confirmed by reading.
+# Functions that can return such a value are derived from these (transitively, lib_c13.solve).
+INPUT_VALUE_FIELDS = {
+    ('Node', 'val'): 'the value of an integer constant of the program',
+    ('Token', 'val'): 'the value of a numeric literal of the program',
+}
+# R13.12: operands that C leaves unevaluated (C11 6.5.13p4, 6.5.14p4, 6.5.15p4; 6.6p3 footnote: a constant expression may contain
+# a division by zero in an operand that is not evaluated).  node kind -> (controlling operand, {lazy operand: outcome of the controlling operand that selects it})
+LAZY_OPERANDS = {
+    'ND_LOGAND': ('lhs', {'rhs': True}),
+    'ND_LOGOR': ('lhs', {'rhs': False}),
+    'ND_COND': ('cond', {'then': True, 'els': False}),
+}
+# R13.12: directive names whose controlling expression is skipped when an earlier group of the same conditional was taken (C11 6.10.1p6)
+LAZY_DIRECTIVES = ('elif',)
+
 
 def _world(P):
     W = L.World(P)
@@ -112,9 +128,68 @@ def _world(P):
         W.len_predicates[f] = m
     W.cursor_compare = dict(CURSOR_COMPARE)
     W.nonempty_strs = W.nonempty_string_params()
+    W.zero_fields = dict(INPUT_VALUE_FIELDS)
+    W.evaluators = _evaluators(W)
+    W.record_calls |= W.evaluators
+    W.reach_eval = _reaching(W, W.evaluators)
+    for un, g, ifs, arm in _directive_arms(W):
+        for c in arm.calls():
+            if c.callee() in W.reach_eval:
+                W.record_calls.add(c.callee())
     for (un, fn, path), why in ASSUMED.items():
         W.assumed_nonnull.setdefault((un, fn), set()).add(path)
     return W
+
+
+def _evaluators(W):
+    """functions of the front end that compute the value of an expression tree: the first parameter is a Node, the result is an
+    arithmetic value (not a truth value, not a pointer) and the function recurses into the operands"""
+    out = set()
+    for un, u in W.units.items():
+        if un == 'codegen.c':
+            continue
+        for f, fd in u.functions.items():
+            ps = [c for c in fd.inner if c.kind == 'ParmVarDecl']
+            rt = (fd.type or '').split('(')[0].strip()
+            if ps and L.rec_of(ps[0].type) == 'Node' and L.is_ptr_type(ps[0].type) and f in W.recursive and len(W.fn_unit.get(f, ())) == 1 \
+                    and not L.is_ptr_type(rt) and rt not in ('void', '_Bool', 'bool'):
+                out.add(f)
+    return out
+
+
+def _reaching(W, targets):
+    """functions from which a call chain leads to one of `targets` (targets included)"""
+    callers = {}
+    for un, u in W.units.items():
+        for f, fd in u.functions.items():
+            for c in fd.calls():
+                if c.callee():
+                    callers.setdefault(c.callee(), set()).add(f)
+    out = set(targets)
+    work = list(targets)
+    while work:
+        g = work.pop()
+        for f in callers.get(g, ()):
+            if f not in out:
+                out.add(f)
+                work.append(f)
+    return out
+
+
+def _directive_arms(W):
+    """(unit, function, IfStmt, then-branch) for every `if (... equal(tok, "<directive>") ...)` with a directive of LAZY_DIRECTIVES"""
+    out = []
+    for un, u in sorted(W.units.items()):
+        for g, fd in sorted(u.functions.items()):
+            for ifs in fd.find('IfStmt'):
+                hit = False
+                for c in ifs.inner[0].calls():
+                    a = c.args()
+                    if c.callee() in W.len_predicates and a and a[-1].str_value() in LAZY_DIRECTIVES:
+                        hit = True
+                if hit and len(ifs.inner) > 1:
+                    out.append((un, g, ifs, ifs.inner[1]))
+    return out
 
 
 def run(P, rep, tier):
@@ -164,6 +239,8 @@ def run(P, rep, tier):
     r138(W, engs, rep)
     r139_pre(W, rep)
     r1310_phases(P, rep)
+    r1311(W, engs, rep)
+    r1312(W, engs, rep)
 
 
 def r1310_phases(P, rep):
@@ -1522,3 +1599,229 @@ def r139_pre(W, rep):
                                % (f, a[pair[1]].src(), a[pair[0]].src()), where='%s:%d' % (un, c.line))
     if n == 0:
         rep.undecided('R13.9', 'marker:constructions', 'no construction of the end marker was recognised')
+
+
+# --------------------------------------------------------------------------------------------
+def _divisor_field(e, d):
+    """set of (record, field) the divisor of a division is read from: `x->f`, `x->f * c`, `c ? x->f : y->g`, or a local initialised with such an expression"""
+    def field_of(n, depth=0):
+        n = n.strip_all()
+        if n.kind == 'BinaryOperator' and n.opcode == '*':
+            a, b = n.inner[0].strip_all(), n.inner[1].strip_all()
+            if a.int_value() not in (None, 0):
+                return field_of(b, depth)
+            if b.int_value() not in (None, 0):
+                return field_of(a, depth)
+            return set()
+        if n.kind == 'UnaryOperator' and n.opcode in ('-', '+'):
+            return field_of(n.inner[0], depth)
+        if n.kind == 'ConditionalOperator':
+            return field_of(n.inner[1], depth) | field_of(n.inner[2], depth)
+        if n.kind == 'MemberExpr':
+            bt = n.inner[0].type or ''
+            rec = L.rec_of(L.pointee(bt) if n.d.get('isArrow') else bt)
+            return set([(rec, n.name)]) if rec else set()
+        if n.kind == 'DeclRefExpr' and n.ref_kind == 'VarDecl' and n.ref_id not in n.unit.by_id and depth < 2:
+            decl = [x for x in e.fd.find('VarDecl') if x.id == n.ref_id]
+            if decl and 'init' in decl[0].d and decl[0].inner:
+                return field_of(decl[0].inner[-1], depth + 1)
+        return set()
+    return field_of(d['dnode'])
+
+
+def r1311(W, engs, rep):
+    """host arithmetic that traps: the compiler's own integer divisions"""
+    rep.rule('R13.11', 'the compiler never divides by zero on the host: where the divisor of an integer `/` or `%` (or an argument handed to a parameter the callee divides by) is a value '
+                       'of the input (result of the constant-expression evaluators, derived from the fields that hold literal values), a dominating test or diagnostic excludes 0; '
+                       'where both operands of a signed division are values of the input, -1 is excluded as well (INT64_MIN / -1 traps like a zero divisor); a value of the input '
+                       'that may be 0 is not stored into a field that the compiler divides by (SIGFPE instead of a located diagnostic)', floor=4)
+    obs = {}
+    notjudged = set()
+    divfields = {}
+
+    def put(key, ok, msg, where, facts=None, und=None):
+        o = obs.get(key)
+        if o is None or (not ok and o[0]):
+            obs[key] = (ok, msg, where, facts, und)
+
+    for (un, f), e in sorted(engs.items()):
+        for d in e.divs.values():
+            how = d['how']
+            fld = _divisor_field(e, d)
+            where = '%s:%d' % (un, d['node'].line)
+            q = d['alias'] or d['path']
+            shown = e.show(q) if q else _canon(d['dnode'])
+            opname = (('s' if d['signed'] else 'u') + how) if how in ('/', '%') else how.replace(' ', '_')
+            base = '%s:%s:%s%s:divisor=%s' % (un, f, (d['ctx'] + ':') if d['ctx'] else '', opname, shown)
+            for x in fld:
+                divfields.setdefault(x, set()).add('%s:%s' % (un, f))
+            inp = d['src'] is not None and d['src'][0] == 'zero'
+            if d['cls'] == 'zero' and d['path'] is None:
+                put(base + ':nonzero', False, '%s() divides by the constant 0 (`%s`)' % (f, d['node'].src()), where)
+                continue
+            if not inp:
+                if d['const'] is None and d['dnode'].strip_all().kind != 'UnaryExprOrTypeTraitExpr':
+                    notjudged.add(base + ''.join(' [%s.%s]' % x for x in sorted(fld)))
+                continue
+            src = '%s: %s' % (d['src'][1], d['src'][2]) if len(d['src']) > 2 else d['src'][1]
+            if d['cls'] in ('z', 'zero'):
+                if d['rel']:
+                    put(base + ':nonzero', True, '', where, und='the divisor `%s` (%s) is constrained by a relational test only; whether the test excludes 0 is not decided' % (d['dnode'].src(), src))
+                else:
+                    put(base + ':nonzero', False,
+                        '%s() %s `%s`, a value of the input that can be 0 (%s), and no dominating test or diagnostic excludes 0%s: the host executes a division by zero and the compiler '
+                        'dies with SIGFPE (through the driver: exit 1 without any message) instead of printing a located diagnostic'
+                        % (f, ('divides by' if how in ('/', '%') else 'passes to a parameter that the callee divides by (%s)' % how), d['dnode'].src(), src, (' (in the arm %s)' % d['ctx']) if d['ctx'] else ''),
+                        where, {'divisor': d['dnode'].src(), 'source': src})
+            else:
+                put(base + ':nonzero', True, '', where)
+            if d['ovf'] is not None:
+                put(base + ':not-minus-one', d['ovf'] == 'ok',
+                    '%s() computes the signed `%s` on the host with both operands taken from the input (%s); the divisor is tested against 0 but not against -1: for the most negative '
+                    'dividend (INT64_MIN / -1, INT64_MIN %% -1) the host division traps and the compiler dies with SIGFPE instead of answering%s'
+                    % (f, d['node'].src(), src, (' (in the arm %s)' % d['ctx']) if d['ctx'] else ''), where, {'expression': d['node'].src()})
+    # stores into fields the compiler divides by
+    for (un, f), e in sorted(engs.items()):
+        for rec, fld, cls, src, node in e.fstores:
+            if (rec, fld) not in divfields or src is None or src[0] != 'zero':
+                continue
+            key = '%s:%s:store(%s.%s)<-%s:nonzero' % (un, f, rec, fld, src[1].replace(' ', ''))
+            put(key, cls == 'nz',
+                '%s() stores `%s`, a value of the input that can be 0 (%s), into %s.%s without excluding 0, and %s divide%s by that field: an input that makes it 0 ends in a host division by '
+                'zero (SIGFPE) instead of a located diagnostic or the documented behaviour'
+                % (f, node.inner[1].src() if len(node.inner) > 1 else '?', src[2] if len(src) > 2 else src[1], rec, fld, ', '.join(sorted(divfields[(rec, fld)])), 's' if len(divfields[(rec, fld)]) == 1 else ''),
+                '%s:%d' % (un, node.line), {'divided_by_in': sorted(divfields[(rec, fld)])})
+    for key, (ok, msg, where, facts, und) in sorted(obs.items()):
+        if und and ok:
+            rep.undecided('R13.11', key, und, where=where)
+        else:
+            rep.ob('R13.11', key, ok, msg, where=where, facts=facts)
+    rep.extra['host_division'] = {'input_valued_functions (derived)': {k: v[2] for k, v in sorted(W.zero_rets.items())},
+                                  'parameters_divided_by (derived)': sorted('%s#%d' % (f, i + 1) for (f, i) in W.mustdiv),
+                                  'fields_divided_by': sorted('%s.%s' % k for k in divfields),
+                                  'divisors_not_judged (not a value of the input: invariants of the compiler\'s own data)': sorted(notjudged)}
+    if not W.zero_rets:
+        rep.undecided('R13.11', 'derivation:input-valued-functions', 'no function that returns a value of the input was derived from %s (fields renamed or the evaluator changed shape)'
+                      % ', '.join('%s.%s' % k for k in sorted(INPUT_VALUE_FIELDS)))
+
+
+# --------------------------------------------------------------------------------------------
+def _engine_path(e, n):
+    """engine path of an lvalue expression made of a variable and member accesses"""
+    n = n.strip_all()
+    if n.kind == 'DeclRefExpr' and n.ref_kind in ('VarDecl', 'ParmVarDecl'):
+        return e.root_path(n)
+    if n.kind == 'MemberExpr':
+        b = _engine_path(e, n.inner[0])
+        if b is None:
+            return None
+        return b + ('->' if n.d.get('isArrow') else '.') + n.name
+    return None
+
+
+def r1312(W, engs, rep):
+    """what the language leaves unevaluated is not evaluated (and so not diagnosed)"""
+    rep.rule('R13.12', 'text that C says is not evaluated is not handed to the constant-expression evaluators, whose diagnostics (division by zero, not a constant, syntax) would '
+                       'reject a valid program: the right operand of && / ||, the unselected arm of ?: are evaluated only under the matching outcome of the controlling operand; the '
+                       'expression of #elif only while no earlier group of the conditional was taken', floor=5)
+    uni = None
+    for u in W.units.values():
+        uni = uni or W.enum_universe.get(u.enum_of.get('ND_COND'))
+    if not uni or any(k not in uni for k in LAZY_OPERANDS):
+        rep.undecided('R13.12', 'table:node-kinds', 'the node kinds %s are not all enumerators of one enum any more' % ', '.join(sorted(LAZY_OPERANDS)))
+        return
+    if not W.evaluators:
+        rep.undecided('R13.12', 'derivation:evaluators', 'no recursive value evaluator over Node was recognised')
+        return
+    lazy_fields = set(x for k, (c, ops) in LAZY_OPERANDS.items() for x in ops)
+    obs = {}
+    seen_kinds = set()
+    for (un, f), e in sorted(engs.items()):
+        if un == 'codegen.c':
+            continue
+        for node, c, S, vals in e.calls:
+            if c not in W.evaluators or not vals or vals[0].path is None or '->' not in vals[0].path:
+                continue
+            base, fld = vals[0].path.rsplit('->', 1)
+            if fld not in lazy_fields or L.rec_of(node.args()[0].strip_all().inner[0].type if node.args()[0].strip_all().kind == 'MemberExpr' else None) != 'Node':
+                continue
+            kf = S.vs.get(base + '->kind')
+            if kf is None:
+                kinds = set(uni)
+            elif kf[0] == 'in':
+                kinds = set(x for x in kf[1] if isinstance(x, str))
+            else:
+                kinds = set(uni) - set(kf[1])
+            for K in sorted(kinds & set(LAZY_OPERANDS)):
+                ctrl, ops = LAZY_OPERANDS[K]
+                if fld not in ops:
+                    continue
+                need = ops[fld]
+                got = S.pc.get('value-of(%s->%s)' % (base, ctrl))
+                ok = got is not None and got[0] == need
+                seen_kinds.add(K)
+                key = '%s:%s:%s:%s-evaluated-only-if-%s-is-%s' % (un, f, K, fld, ctrl, 'nonzero' if need else 'zero')
+                if got is None:
+                    why = 'without a test of the value of `->%s` that dominates the call' % ctrl
+                else:
+                    why = 'on the outcome `->%s is %s`' % (ctrl, 'nonzero' if got[0] else 'zero')
+                msg = ('%s() evaluates the operand `%s` of a %s node %s; C evaluates it only if the %s operand is %s, and the evaluator diagnoses what it evaluates (division by zero, '
+                       'not a compile-time constant): a valid constant expression such as `%s` is rejected with a diagnostic'
+                       % (f, node.args()[0].src(), K, why, ctrl, 'nonzero' if need else 'zero',
+                          {'ND_LOGAND': '0 && 1/0', 'ND_LOGOR': '1 || 1/0', 'ND_COND': 'x ? 1 : 1/0'}.get(K, '?')))
+                o = obs.get(key)
+                if o is None or (not ok and o[0]):
+                    obs[key] = (ok, msg, '%s:%d' % (un, node.line))
+    for key, (ok, msg, where) in sorted(obs.items()):
+        rep.ob('R13.12', key, ok, msg, where=where)
+    for K in sorted(set(LAZY_OPERANDS) - seen_kinds):
+        rep.undecided('R13.12', 'evaluators:%s' % K, 'no evaluator call on a lazy operand of %s was recognised (evaluators: %s)' % (K, ', '.join(sorted(W.evaluators))))
+    # conditional inclusion: the expression of #elif
+    arms = _directive_arms(W)
+    njudged = 0
+    for un, g, ifs, arm in arms:
+        e = engs.get((un, g))
+        if e is None:
+            continue
+        # the flag that records "a group of this conditional was taken": the boolean field this arm sets when its own group is taken
+        flags = {}
+        for b in arm.find('BinaryOperator'):
+            if b.opcode != '=':
+                continue
+            lhs = b.inner[0].strip()
+            if lhs.kind == 'MemberExpr' and (lhs.dtype or lhs.type or '') in ('_Bool', 'bool') and b.inner[1].strip_all().int_value() == 1:
+                p = _engine_path(e, lhs)
+                if p is not None:
+                    flags[p] = lhs.src()
+        calls = [c for c in arm.calls() if c.callee() in W.reach_eval]
+        dname = [a.args()[-1].str_value() for a in ifs.inner[0].calls() if a.args() and a.args()[-1].str_value() in LAZY_DIRECTIVES][0]
+        for c in calls:
+            key = '%s:%s:#%s:%s()-only-if-no-group-taken' % (un, g, dname, c.callee())
+            where = '%s:%d' % (un, c.line)
+            if len(flags) != 1:
+                rep.undecided('R13.12', key, 'the flag by which the #%s arm records that a group was taken is not recognised (boolean fields it sets to true: %s)' % (dname, sorted(flags.values()) or 'none'), where=where)
+                njudged += 1
+                continue
+            fp, fsrc = list(flags.items())[0]
+            states = [S for n, cal, S, v in e.calls if n is c]
+            if not states:
+                rep.undecided('R13.12', key, 'the call is not reached by the analysis', where=where)
+                njudged += 1
+                continue
+            bad = 0
+            for S in states:
+                good = False
+                for q in [fp] + [l for l, o in S.ali.items() if o == fp]:
+                    n_ = S.nul.get(q)
+                    w = S.vs.get(q)
+                    if (n_ is not None and n_[0] == 'NULL') or (w is not None and w[0] == 'in' and set(w[1]) == {0}):
+                        good = True
+                if not good:
+                    bad += 1
+            njudged += 1
+            rep.ob('R13.12', key, bad == 0,
+                   '%s() hands the rest of a #%s line to %s() in a state where `%s` is not known to be false: once an earlier group of the conditional was taken the directive must be skipped '
+                   'without looking at its expression (C11 6.10.1p6), but here it is parsed and evaluated, so `#if !defined(F) ... #elif F(x)` or `#if N == 0 ... #elif 100 / N` is rejected with '
+                   '"not a function" / "division by zero" although the program is valid' % (g, dname, c.callee(), fsrc), where=where)
+    if njudged == 0:
+        rep.undecided('R13.12', 'directive:%s' % '/'.join(LAZY_DIRECTIVES), 'no evaluation of a controlling expression under a test for the directive name %s was recognised' % '/'.join('"%s"' % d for d in LAZY_DIRECTIVES))
